@@ -2,6 +2,8 @@ package modes
 
 import (
 	"context"
+	"os"
+	"runtime"
 	"encoding/json"
 	"fmt"
 	"strings"
@@ -40,18 +42,44 @@ func runC13Case(c *c13Case) (res c13Res) {
 	var mu sync.Mutex
 	var srvChan *lime.ServerChannel
 	estCh := make(chan struct{}, 4)
-	finished := int32(0)
+	finished := int32(0)             // Finished callbacks for the first session
+	finishedBy := map[string]int{} // per session id
+	firstSid := ""
 	b := lime.NewServerBuilder().Name("postmaster").Domain("c13.local").Instance("srv").
 		EnablePlainAuthentication(func(context.Context, lime.Identity, string) (*lime.AuthenticationResult, error) {
 			return lime.MemberAuthenticationResult(), nil
 		}).ChannelBufferSize(c.Buf).
-		Established(func(_ string, sc *lime.ServerChannel) {
+		Established(func(sid string, sc *lime.ServerChannel) {
 			mu.Lock()
-			srvChan = sc
+			if firstSid == "" {
+				firstSid = sid
+				srvChan = sc
+			}
 			mu.Unlock()
+			if c.Initiator == "client-close-at-once" {
+				// traffic towards the client from the first moment of the session
+				go func() {
+					for i := 0; i < 3; i++ {
+						m := &lime.Message{}
+						m.ID = fmt.Sprint("early-", i)
+						m.SetContent(lime.TextDocument("early"))
+						sctx, scancel := context.WithTimeout(context.Background(), 2*time.Second)
+						_ = sc.SendMessage(sctx, m)
+						scancel()
+					}
+				}()
+			}
 			estCh <- struct{}{}
 		}).
-		Finished(func(string) { atomic.AddInt32(&finished, 1) }).
+		Finished(func(sid string) {
+			mu.Lock()
+			finishedBy[sid]++
+			first := sid == firstSid
+			mu.Unlock()
+			if first {
+				atomic.AddInt32(&finished, 1)
+			}
+		}).
 		MessagesHandlerFunc(func(context.Context, *lime.Message, lime.Sender) error { return nil }).
 		NotificationsHandlerFunc(func(context.Context, *lime.Notification) error { return nil })
 	var dial func(ctx context.Context) (lime.Transport, error)
@@ -105,12 +133,17 @@ func runC13Case(c *c13Case) (res c13Res) {
 		}
 		if len(res.Leaked) > 0 {
 			problem("%d goroutine(s) of the library left after both sides closed, first at %s", len(res.Leaked), res.Leaked[0])
+			if os.Getenv("VERIF_SLOW") != "" {
+				buf := make([]byte, 1<<20)
+				n := runtime.Stack(buf, true)
+				fmt.Fprintf(os.Stderr, "%s\n", buf[:n])
+			}
 		}
 	}()
 	ctx, cancel := context.WithTimeout(context.Background(), 30*time.Second)
 	defer cancel()
 
-	highLevel := c.Initiator == "client-close"
+	highLevel := c.Initiator == "client-close" || c.Initiator == "client-close-at-once"
 	var cc *lime.ClientChannel
 	var ct lime.Transport
 	var client *lime.Client
@@ -180,11 +213,14 @@ func runC13Case(c *c13Case) (res c13Res) {
 			}
 		}()
 	}
-	select {
-	case <-estCh:
-	case <-time.After(5 * time.Second):
-		problem("harness: the server never reported the session")
-		return
+	atOnce := c.Initiator == "client-close-at-once"
+	if !atOnce {
+		select {
+		case <-estCh:
+		case <-time.After(5 * time.Second):
+			problem("harness: the server never reported the session")
+			return
+		}
 	}
 	mu.Lock()
 	sc := srvChan
@@ -193,14 +229,44 @@ func runC13Case(c *c13Case) (res c13Res) {
 	// traffic in both directions while the end is requested
 	var stop int32
 	var senders sync.WaitGroup
-	send := func(f func(context.Context, *lime.Message) error) {
+	// every kind of envelope is in flight, unmatched response commands included
+	type anySender interface {
+		SendMessage(context.Context, *lime.Message) error
+		SendNotification(context.Context, *lime.Notification) error
+		SendRequestCommand(context.Context, *lime.RequestCommand) error
+	}
+	type respSender interface {
+		SendResponseCommand(context.Context, *lime.ResponseCommand) error
+	}
+	send := func(sn anySender, salt int) {
 		defer senders.Done()
 		for i := 0; atomic.LoadInt32(&stop) == 0; i++ {
-			m := &lime.Message{}
-			m.ID = fmt.Sprint(i)
-			m.SetContent(lime.TextDocument("traffic"))
 			sctx, scancel := context.WithTimeout(ctx, 2*time.Second)
-			err := f(sctx, m)
+			var err error
+			switch (i + salt) % 4 {
+			case 0:
+				m := &lime.Message{}
+				m.ID = fmt.Sprint(i)
+				m.SetContent(lime.TextDocument("traffic"))
+				err = sn.SendMessage(sctx, m)
+			case 1:
+				n := &lime.Notification{Event: lime.NotificationEventReceived}
+				n.ID = fmt.Sprint(i)
+				err = sn.SendNotification(sctx, n)
+			case 2:
+				r := &lime.RequestCommand{}
+				r.ID = fmt.Sprint("q", i)
+				r.Method = lime.CommandMethodGet
+				r.SetURIString("/x")
+				err = sn.SendRequestCommand(sctx, r)
+			default:
+				if rs, ok := sn.(respSender); ok {
+					r := &lime.ResponseCommand{Status: lime.CommandStatusSuccess}
+					r.ID = fmt.Sprint("nobody-asked-", i)
+					r.Method = lime.CommandMethodGet
+					err = rs.SendResponseCommand(sctx, r)
+				}
+			}
 			scancel()
 			if err != nil {
 				return
@@ -213,16 +279,18 @@ func runC13Case(c *c13Case) (res c13Res) {
 	for i := 0; i < c.CliSenders; i++ {
 		senders.Add(1)
 		if highLevel {
-			go send(client.SendMessage)
+			go send(client, i)
 		} else {
-			go send(cc.SendMessage)
+			go send(cc, i)
 		}
 	}
-	for i := 0; i < c.SrvSenders; i++ {
+	for i := 0; i < c.SrvSenders && !atOnce; i++ {
 		senders.Add(1)
-		go send(sc.SendMessage)
+		go send(sc, i)
 	}
-	time.Sleep(time.Duration(c.DelayUs) * time.Microsecond)
+	if !atOnce {
+		time.Sleep(time.Duration(c.DelayUs) * time.Microsecond)
+	}
 
 	// ---- the end is requested
 	tctx, tcancel := context.WithTimeout(ctx, 12*time.Second)
@@ -240,7 +308,7 @@ func runC13Case(c *c13Case) (res c13Res) {
 	case "server-fail":
 		callErr = sc.FailSession(tctx, &lime.Reason{Code: 42, Description: "scripted"})
 		wantState = lime.SessionStateFailed
-	case "client-close":
+	case "client-close", "client-close-at-once":
 		callErr = client.Close()
 	case "server-close":
 		callErr = srv.Close()
@@ -294,7 +362,12 @@ func runC13Case(c *c13Case) (res c13Res) {
 			problem("a consumer of the client's inbound streams is still blocked 9 s after %s: a stream was not closed", c.Initiator)
 		}
 	}
-	if c.Initiator == "client-finish" || c.Initiator == "client-close" {
+	if atOnce {
+		mu.Lock()
+		sc = srvChan
+		mu.Unlock()
+	}
+	if c.Initiator == "client-finish" || c.Initiator == "client-close" || (atOnce && sc != nil) {
 		// the server observes the finishing envelope, answers and ends: Finished callback, state
 		deadline := time.Now().Add(9 * time.Second)
 		for atomic.LoadInt32(&finished) == 0 && time.Now().Before(deadline) {
@@ -316,6 +389,11 @@ func runC13Case(c *c13Case) (res c13Res) {
 		problem("a sender is still blocked 9 s after the session ended")
 	}
 	// ---- the observing side closes its channel; then nothing may be left (census in the deferred part)
+	if client != nil {
+		// a sender that was still running when Close returned has made the client establish a new
+		// session (a closed Client reconnects on use): that one is the harness's to close
+		_ = client.Close()
+	}
 	if cc != nil {
 		_ = cc.Close()
 		if ct.Connected() {
@@ -328,9 +406,13 @@ func runC13Case(c *c13Case) (res c13Res) {
 			time.Sleep(200 * time.Microsecond)
 		}
 	}
-	if n := atomic.LoadInt32(&finished); n > 1 {
-		problem("the Finished callback ran %d times for one session", n)
+	mu.Lock()
+	for sid, n := range finishedBy {
+		if n > 1 {
+			problem("the Finished callback ran %d times for session %s", n, sid)
+		}
 	}
+	mu.Unlock()
 	return
 }
 
@@ -388,10 +470,10 @@ func init() {
 			}
 		} else {
 			trs := []string{"inproc", "tcp", "ws"}
-			inits := []string{"client-finish", "server-finish", "server-fail", "client-close", "server-close"}
-			n := e.N(90, 1800)
+			inits := []string{"client-finish", "server-finish", "server-fail", "client-close", "server-close", "client-close-at-once"}
+			n := e.N(108, 2160)
 			for i := 0; i < n; i++ {
-				c := &c13Case{Transport: trs[i%3], Initiator: inits[(i/3)%5], Buf: []int{0, 1, 64}[e.Rng.Intn(3)],
+				c := &c13Case{Transport: trs[i%3], Initiator: inits[(i/3)%6], Buf: []int{0, 1, 64}[e.Rng.Intn(3)],
 					CliSenders: e.Rng.Intn(5), SrvSenders: e.Rng.Intn(5), DelayUs: []int{0, 50, 300, 2000}[e.Rng.Intn(4)], Seed: e.Seed*100000 + int64(i)}
 				cases = append(cases, c)
 			}
